@@ -177,7 +177,16 @@ var c14TypeWords = []string{"Peer", "Chat", "User", "Photo", "Message", "Dialog"
 	// names which begin like a builtin type or an excluded definition (intervalEmpty, longPollFull, trueColorMin …):
 	// only the exact words are special
 	"Interval", "Integer", "LongPoll", "StringList", "BytesBlob", "DoubleRange", "TrueColor", "BoolTrueish",
-	"InvokeAfterMsgLog", "InitConnectionInfo"}
+	"InvokeAfterMsgLog", "InitConnectionInfo",
+	// words of several humps (none is a type word followed by a constructor suffix or preceded by "Input"):
+	// a constructor can then equal its type under case folding without having the same Go name
+	// (webpage / WebPage), or have the same Go name without being equal under case folding (web_page / WebPage)
+	"WebPage", "GeoChat", "PhoneCall", "PeerNotify", "StickerSet", "BotInfo", "TopPeer", "JsonValue", "URLAuth",
+	"WallPaper", "DcOption", "CdnConfig", "PollAnswer", "InlineResult"}
+
+// the words of several humps among c14TypeWords
+var c14MultiHump = []string{"WebPage", "GeoChat", "PhoneCall", "PeerNotify", "StickerSet", "BotInfo", "TopPeer", "JsonValue", "URLAuth",
+	"WallPaper", "DcOption", "CdnConfig", "PollAnswer", "InlineResult"}
 var c14Namespaces = []string{"", "", "", "storage.", "messages.", "auth.", "help.", "upload."}
 var c14CtorSuffix = []string{"Empty", "Self", "Full", "Small", "Forbidden", "Min", "Old", "Big", "Deleted", "Layer72", "V2", "Cached"}
 var c14ParamWords = []string{"id", "user_id", "access_hash", "title", "url", "api_id", "p2p", "msg_id", "date", "count", "offset",
@@ -198,11 +207,96 @@ func lowerFirst(s string) string {
 	return strings.ToLower(s[:1]) + s[1:]
 }
 
+// c14ClashSpelling: a constructor name that is "the name of its type" in one of the ways schemas spell it:
+// 0 first letter lowered (webPage), 1 all lower case (webpage), 2 snake case (web_page), 3 the type's letters
+// with another inner capitalisation (webpAge). For a word of one hump 0, 1 and 2 coincide.
+func c14ClashSpelling(word string, variant int) string {
+	switch variant % 4 {
+	case 1:
+		return strings.ToLower(word)
+	case 2:
+		var b strings.Builder
+		for i, c := range word {
+			if i > 0 && c >= 'A' && c <= 'Z' {
+				b.WriteByte('_')
+			}
+			b.WriteRune(c)
+		}
+		return strings.ToLower(b.String())
+	case 3:
+		l := []byte(strings.ToLower(word))
+		at := len(l) - 2
+		if at < 1 {
+			at = len(l) - 1
+		}
+		// a capital where the type has none (and none where it has one)
+		if word[at] >= 'A' && word[at] <= 'Z' {
+			at--
+		}
+		if at >= 1 {
+			l[at] = l[at] - 'a' + 'A'
+		}
+		return string(l)
+	}
+	return lowerFirst(word)
+}
+
+// c14GoName: the exported Go identifier the generator's documented naming rule gives a schema name —
+// the harness's own statement of it (shares no code with gen/utils.go or strcase). The name is cut into
+// words at '.', '_', '-', at every change lower→upper and letter↔digit, and in front of the last capital of a
+// run of capitals that is followed by a lower-case letter (JSONData → JSON Data); every word is written in
+// lower case with a capital first letter, the listed abbreviations all in capitals. Two schema names
+// collide in the generated package exactly when their Go names are equal.
+func c14GoName(name string) string {
+	isUp := func(c byte) bool { return c >= 'A' && c <= 'Z' }
+	isLo := func(c byte) bool { return c >= 'a' && c <= 'z' }
+	isNum := func(c byte) bool { return c >= '0' && c <= '9' }
+	var words []string
+	cur := ""
+	flush := func() {
+		if cur != "" {
+			words = append(words, cur)
+		}
+		cur = ""
+	}
+	for i := 0; i < len(name); i++ {
+		c := name[i]
+		if c == '.' || c == '_' || c == '-' || c == ' ' {
+			flush()
+			continue
+		}
+		if i > 0 && i+1 < len(name) && isUp(c) && isLo(name[i+1]) && isUp(name[i-1]) {
+			flush()
+		}
+		cur += string(c)
+		if i+1 < len(name) {
+			n := name[i+1]
+			if isLo(c) && (isUp(n) || isNum(n)) || isNum(c) && (isUp(n) || isLo(n)) || isUp(c) && isNum(n) {
+				flush()
+			}
+		}
+	}
+	flush()
+	var b strings.Builder
+	for _, w := range words {
+		w = strings.ToLower(w)
+		switch w {
+		case "id", "api", "url", "p2p", "sha", "srp":
+			b.WriteString(strings.ToUpper(w))
+		default:
+			b.WriteString(strings.ToUpper(w[:1]) + w[1:])
+		}
+	}
+	return b.String()
+}
+
 type c14GenOpts struct {
-	forGen bool // stay inside what the code generator documents (every referenced type is declared, …)
-	size   int
-	tricky bool // keyword-like parameter names
-	clash  bool // constructors named like their type
+	forGen     bool // stay inside what the code generator documents (every referenced type is declared, …)
+	size       int
+	tricky     bool // keyword-like parameter names
+	clash      bool // constructors named like their type
+	spellIface bool // with spell: multi-constructor types only, spellings 1, 2, 3, … in turn (a small schema)
+	spell      bool // every type: a word of several humps, a constructor that is its type's name in one of the spellings of c14ClashSpelling; kinds and spellings in rotation (all twelve combinations from size 12 on)
 }
 
 type c14TypeInfo struct {
@@ -260,14 +354,30 @@ func c14RandSchema(r *Rand, o c14GenOpts) (*c14Schema, []*c14TypeInfo) {
 		nTypes = len(perm)
 	}
 	var types []*c14TypeInfo
+	spellAt := r.Intn(len(c14MultiHump))
+	if o.spell {
+		nTypes = o.size
+		if nTypes > len(c14MultiHump) {
+			nTypes = len(c14MultiHump)
+		}
+	}
 	for i := 0; i < nTypes; i++ {
 		ns := c14Namespaces[r.Intn(len(c14Namespaces))]
 		word := c14TypeWords[perm[i]]
-		if r.Intn(4) == 0 {
+		if o.spell {
+			word = c14MultiHump[(spellAt+i)%len(c14MultiHump)]
+		} else if r.Intn(4) == 0 {
 			word = "Input" + word
 		}
 		ti := &c14TypeInfo{name: ns + word}
-		switch r.Intn(3) {
+		kindPick := r.Intn(3)
+		if o.spell {
+			kindPick = i % 3
+			if o.spellIface {
+				kindPick = 2
+			}
+		}
+		switch kindPick {
 		case 0:
 			ti.kind = "enum"
 		case 1:
@@ -284,8 +394,19 @@ func c14RandSchema(r *Rand, o c14GenOpts) (*c14Schema, []*c14TypeInfo) {
 		sfx := r.Intn(len(c14CtorSuffix))
 		for k := 0; k < n; k++ {
 			name := ns + lowerFirst(word) + c14CtorSuffix[(sfx+k)%len(c14CtorSuffix)]
-			if k == 0 && (o.clash && r.Intn(2) == 0 || r.Intn(6) == 0) {
-				name = ns + lowerFirst(word) // constructor named like its type
+			if k == 0 && o.spell {
+				if o.spellIface {
+					name = ns + c14ClashSpelling(word, 1+i)
+				} else {
+					name = ns + c14ClashSpelling(word, i/3)
+				}
+			} else if k == 0 && (o.clash && r.Intn(2) == 0 || r.Intn(6) == 0) {
+				// constructor named like its type: usually the first letter lowered, sometimes another spelling
+				v := 0
+				if r.Intn(3) == 0 {
+					v = 1 + r.Intn(3)
+				}
+				name = ns + c14ClashSpelling(word, v)
 			}
 			ti.ctors = append(ti.ctors, &c14Def{Name: name, CRC: crc(), Result: ti.name})
 		}
@@ -609,7 +730,9 @@ func c14ExpectDecls(s *c14Schema) string {
 			default:
 				k = "single"
 			}
-			if k != "single" && c14Norm(d.Name) == c14Norm(d.Result) {
+			// the suffix is there exactly when the Go names would collide (webPage, web_page / WebPage — not
+			// webpage / WebPage, which are two identifiers)
+			if k != "single" && c14GoName(d.Name) == c14GoName(d.Result) {
 				obj = "1"
 			}
 		}
